@@ -1,13 +1,14 @@
 (* C20, part 7: the mapping law on the rendered tables of the model.
    For entries es0 (run without -m) and es = map_entries m es0 (run with -m): the rows of
    render_weights of es0 and of es satisfy Spec/PortfolioSpec.mapping_law_b with tolerance 0,
-   provided the weights are defined, no path of es0 is a proper prefix of another and no mapped
-   path is empty. *)
+   provided no path of es0 is a proper prefix of another and no mapped path is empty.  Columns
+   with an undefined weight (zero total) are skipped by the statement; in the others the entries
+   of the date are defined (PortfolioPerDate). *)
 From Coq Require Import ZArith QArith Qabs Qfield List Bool Lia Permutation Sorting.Sorted.
 From Knut Require Import Model.Str Model.Dec Model.Date Model.Account Model.Ledger Model.Price
      Model.Journal Model.Cli Model.Perf Model.Weights Model.CliPortfolio Spec.PortfolioSpec Spec.PortfolioMapSpec
      Proofs.SMapProofs Proofs.PortfolioDays Proofs.PortfolioReturns Proofs.PortfolioWeights
-     Proofs.PortfolioTree Proofs.PortfolioMapping Proofs.PortfolioTable.
+     Proofs.PortfolioTree Proofs.PortfolioMapping Proofs.PortfolioTable Proofs.PortfolioPerDate.
 Import ListNotations.
 Open Scope Q_scope.
 
@@ -115,12 +116,12 @@ Proof. unfold nsum. cbn. destruct (g p); reflexivity. Qed.
 
 Lemma nsum_upd g d p h f l delta :
   (forall c, wn_seg (f c) = wn_seg c) ->
-  (forall c, wn_seg c = h -> tdefined c -> nsum g d (nodes (p ++ [h]) (f c)) == nsum g d (nodes (p ++ [h]) c) + delta) ->
-  Forall tdefined l ->
+  (forall c, wn_seg c = h -> tdef_at d c -> nsum g d (nodes (p ++ [h]) (f c)) == nsum g d (nodes (p ++ [h]) c) + delta) ->
+  Forall (tdef_at d) l ->
   nsum g d (below p (wchildren_upd h f l)) == nsum g d (below p l) + delta.
 Proof.
   intros Hseg Hf. assert (Hnew : nsum g d (nodes (p ++ [h]) (f (wn_new h))) == delta).
-  { rewrite (Hf (wn_new h) eq_refl (tdefined_new h)), nsum_new. ring. }
+  { rewrite (Hf (wn_new h) eq_refl (tdef_at_new d h)), nsum_new. ring. }
   induction l as [|c l IH]; intros Hl; cbn [wchildren_upd].
   - rewrite below_cons, Hseg. cbn [wn_new wn_seg]. rewrite nsum_app, Hnew. unfold below, nsum. cbn. ring.
   - inversion Hl as [|? ? Hc Hl']; subst. destruct (str_cmp h (wn_seg c)) eqn:E.
@@ -129,40 +130,42 @@ Proof.
     + rewrite !below_cons, !nsum_app, (IH Hl'). ring.
 Qed.
 
-Lemma nsum_add g ss date q d : forall p n, tdefined n ->
-  nsum g d (nodes p (wn_add ss date (Some q) n)) ==
-  nsum g d (nodes p n) + (if g (p ++ ss) && (date =? d)%Z then q else 0).
+(* on a date d whose bookings are defined; the entry added may be undefined if it is of another date *)
+Lemma nsum_add g ss date x d : (date = d -> x <> None) -> forall p n, tdef_at d n ->
+  nsum g d (nodes p (wn_add ss date x n)) ==
+  nsum g d (nodes p n) + (if g (p ++ ss) && (date =? d)%Z then oq x else 0).
 Proof.
-  induction ss as [|h tl IH]; intros p [s lf w ch] Hd; apply tdefined_unfold in Hd; destruct Hd as [Hw Hch];
+  intros Hx. induction ss as [|h tl IH]; intros p [s lf w ch] Hd; apply tall_unfold in Hd; destruct Hd as [Hw Hch];
+    cbn [wn_weights] in Hw;
     cbn [wn_add wn_seg wn_leaf wn_weights wn_children]; rewrite !nodes_unfold; cbn [wn_children];
     unfold nsum at 1 2; cbn [map fst snd wn_weights]; rewrite !qsum_cons.
   - rewrite app_nil_r. fold (nsum g d (below p ch)). destruct (g p); cbn [andb].
-    + rewrite (proj2 (wm_add_sum w date q d Hw)). ring.
+    + rewrite (proj2 (wm_add_sum_at w date x d Hw Hx)). ring.
     + ring.
-  - fold (nsum g d (below p (wchildren_upd h (wn_add tl date (Some q)) ch))). fold (nsum g d (below p ch)).
-    rewrite (nsum_upd g d p h (wn_add tl date (Some q)) ch (if g (p ++ h :: tl) && (date =? d)%Z then q else 0)).
+  - fold (nsum g d (below p (wchildren_upd h (wn_add tl date x) ch))). fold (nsum g d (below p ch)).
+    rewrite (nsum_upd g d p h (wn_add tl date x) ch (if g (p ++ h :: tl) && (date =? d)%Z then oq x else 0)).
     + ring.
     + intros c. apply wn_add_seg.
     + intros c _ Hc. rewrite (IH (p ++ [h]) c Hc), <- app_assoc. reflexivity.
     + exact Hch.
 Qed.
 
-Lemma nsum_build g d es : defined_entries es -> forall n, tdefined n ->
+Lemma nsum_build g d es : edef_at d es -> forall n, tdef_at d n ->
   nsum g d (nodes [] (build es n)) ==
   nsum g d (nodes [] n) + qsum (map (fun e : entry => let '(ss, dt, w) := e in if g ss && (dt =? d)%Z then oq w else 0) es).
 Proof.
   unfold build. induction es as [|[[ss dt] w] es IH]; intros Hes n Hn; cbn [fold_left map].
   - cbn. ring.
-  - inversion Hes as [|? ? Hw Hrest]; subst. destruct w as [q|]; [|congruence].
-    rewrite (IH Hrest _ (proj1 (wn_add_total ss dt q 0 n Hn))), (nsum_add g ss dt q d [] n Hn), qsum_cons. cbn [app oq]. ring.
+  - inversion Hes as [|? ? Hw Hrest]; subst.
+    rewrite (IH Hrest _ (wn_add_def_at d ss dt w n Hw Hn)), (nsum_add g ss dt w d Hw [] n Hn), qsum_cons. cbn [app]. ring.
 Qed.
 
 (* over the nodes below the root of a report whose entries have non-empty paths *)
-Lemma nsum_report g d es : defined_entries es -> Forall (fun e => entry_path e <> []) es ->
+Lemma nsum_report g d es : edef_at d es -> Forall (fun e => entry_path e <> []) es ->
   nsum g d (below [] (wn_children (report_of es))) ==
   qsum (map (fun e : entry => let '(ss, dt, w) := e in if g ss && (dt =? d)%Z then oq w else 0) es).
 Proof.
-  intros Hd Hne. pose proof (nsum_build g d es Hd wroot wroot_defined) as H. rewrite <- report_of_build in H.
+  intros Hd Hne. pose proof (nsum_build g d es Hd wroot (tdef_at_new d [])) as H. rewrite <- report_of_build in H.
   rewrite nodes_unfold in H. unfold nsum at 1 in H. cbn [map fst snd] in H. rewrite qsum_cons in H.
   fold (nsum g d (below [] (wn_children (report_of es)))) in H.
   pose proof (report_root_weights es Hne wroot) as Hw. fold (build es wroot) in Hw. rewrite <- report_of_build in Hw.
@@ -217,6 +220,14 @@ Proof.
   - destruct (IH l e0 eq_refl Hin) as [q' [H1 [e [H2 H3]]]]. exists q'. split; [exact H1|]. exists e. split; [right; exact H2|exact H3].
 Qed.
 
+Lemma map_entries_edef_at m d es0 : forall es, map_entries m es0 = Some es -> edef_at d es0 -> edef_at d es.
+Proof.
+  unfold edef_at. induction es0 as [|[[ss dt] w] es0 IH]; intros es H Hd; cbn [map_entries] in H.
+  - inversion H; subst. constructor.
+  - destruct (map_path m ss) as [q|]; [|discriminate]. destruct (map_entries m es0) as [l|]; [|discriminate].
+    inversion H; subst. inversion Hd; subst. constructor; [assumption|apply IH; [reflexivity|assumption]].
+Qed.
+
 Lemma map_path_of_nil m q : map_path m [] = Some q -> q = [].
 Proof.
   unfold map_path. destruct (mapping_level m (join [colon] [])) as [[level suffix]|]; [|intros H; inversion H; reflexivity].
@@ -261,7 +272,6 @@ Qed.
 Section Law.
   Variables (m : list rule) (es0 es : list entry) (a0 a : bool).
   Hypothesis Hmap : map_entries m es0 = Some es.
-  Hypothesis Hdef0 : defined_entries es0.
   Hypothesis Hpf : prefix_free es0.
   Hypothesis Hne : Forall (fun e => entry_path e <> []) es.
 
@@ -271,25 +281,41 @@ Section Law.
   Local Notation leaves := (map (nrow dates) (filter leafp (below [] (wn_children (fin a0 T0))))).
   Local Notation prs := (map (nrow dates) (below [] (wn_children (fin a T)))).
 
-  Lemma Hdef : defined_entries es.
-  Proof. exact (map_entries_defined m es0 es Hmap Hdef0). Qed.
-
   Lemma Hne0 : Forall (fun e => entry_path e <> []) es0.
   Proof. exact (map_entries_nonempty m es0 es Hmap Hne). Qed.
 
   (* which unmapped paths the mapping sends to p *)
   Definition gm (p q0 : list str) : bool := match map_path m q0 with Some q => path_eqb q p | None => false end.
 
-  (* a node of the report at a path: its own bookings *)
-  Lemma own_at_find e q x d : defined_entries e -> wn_find q (report_of e) = Some x ->
-    wsum (wn_weights x) d == own_weight e q d.
-  Proof. intros Hd Hf. pose proof (report_own_at e q d Hd) as H. unfold at_node in H. rewrite Hf in H. exact H. Qed.
+  (* a column in which every leaf row of the table without -m is a finite number: the entries of its date are defined *)
+  Lemma column_defined j : (j < length dates)%nat ->
+    forallb (fun lf => scol_finite j (snd lf)) leaves = true -> edef_at (nth j dates 0%Z) es0.
+  Proof.
+    intros Hj Hfin. apply Forall_forall. intros [[q0 dt] w] He0 Hdt. destruct w as [v|]; [discriminate|]. exfalso. subst dt.
+    pose proof (none_report q0 _ es0 He0) as Hn. unfold none_at in Hn. destruct (wn_find q0 T0) as [x0|] eqn:Ef; [|exact Hn].
+    assert (Hch : wn_children x0 = []).
+    { destruct (wn_children x0) as [|c0 ch0] eqn:Ec; [reflexivity|]. exfalso.
+      assert (Hc : wn_children x0 <> []) by (rewrite Ec; discriminate).
+      pose proof (inner_node_no_entry es0 q0 x0 Hpf Ef Hc _ He0) as Hno. cbn [entry_path] in Hno.
+      rewrite (proj2 (path_eqb_eq q0 q0) eq_refl) in Hno. discriminate. }
+    assert (Hq0 : q0 <> []) by (pose proof Hne0 as H; rewrite Forall_forall in H; exact (H _ He0)).
+    pose proof (find_in_nodes q0 T0 [] x0 Ef) as Hnode. cbn [app] in Hnode. rewrite nodes_unfold in Hnode.
+    destruct Hnode as [Hh|Hnode]; [inversion Hh; congruence|].
+    rewrite forallb_forall in Hfin.
+    assert (Hin : In (nrow dates (nmap (fin a0) (q0, x0))) leaves).
+    { apply in_map. apply filter_In. split.
+      - apply (Permutation_in _ (Permutation_sym (below_fin a0 T0 []))). apply in_map. exact Hnode.
+      - rewrite fin_leafp. unfold leafp. cbn [snd]. rewrite Hch. reflexivity. }
+    specialize (Hfin _ Hin). unfold scol_finite, nrow, nmap in Hfin. cbn [fst snd] in Hfin. unfold cells_of in Hfin.
+    rewrite (nth_indep _ None (wcell (wn_weights (fin a0 x0)) 0%Z)) in Hfin by (rewrite map_length; exact Hj).
+    rewrite map_nth, fin_weights, (propagate_leaf x0 Hch) in Hfin. unfold wcell in Hfin. rewrite Hn in Hfin. discriminate.
+  Qed.
 
   (* what the mapping folds into the row at p, read off the leaf rows of the table without -m *)
-  Lemma own_sum_leaves p j : (j < length dates)%nat ->
+  Lemma own_sum_leaves p j : (j < length dates)%nat -> edef_at (nth j dates 0%Z) es0 ->
     own_sum m leaves p j == own_weight es p (nth j dates 0%Z).
   Proof.
-    intros Hj. unfold own_sum. rewrite map_map.
+    intros Hj Hed0. unfold own_sum. rewrite map_map.
     rewrite (map_ext _ (fun px => if gm p (fst px) then ccol dates j (snd px) else 0)) by (intros px; reflexivity).
     rewrite qsum_filter.
     rewrite (qsum_perm _ _ (Permutation_map _ (below_fin a0 T0 []))), map_map.
@@ -301,11 +327,11 @@ Section Law.
       pose proof (tall_here _ _ (wn_find_tall _ q _ x Ha Hf)) as Hax. cbn beta in Hax.
       unfold leafp. cbn [snd]. destruct (wn_children x) as [|c ch] eqn:Ec.
       + destruct (gm p q); [|reflexivity]. rewrite (ccol_fin dates j a0 x Hj Hax), (propagate_leaf x Ec). reflexivity.
-      + destruct (gm p q); [|reflexivity]. rewrite (own_at_find es0 q x _ Hdef0 Hf). symmetry. unfold own_weight.
+      + destruct (gm p q); [|reflexivity]. rewrite (own_at_find_at _ es0 q x Hed0 Hf). symmetry. unfold own_weight.
         apply qsum_zero. intros [[ss dt] w] He.
         assert (Hch : wn_children x <> []) by (rewrite Ec; discriminate).
         pose proof (inner_node_no_entry es0 q x Hpf Hf Hch _ He) as Hno. cbn [entry_path] in Hno. rewrite Hno. reflexivity.
-    - rewrite (nsum_report (gm p) (nth j dates 0%Z) es0 Hdef0 Hne0). unfold folded_weight. apply qsum_map_ext.
+    - rewrite (nsum_report (gm p) (nth j dates 0%Z) es0 Hed0 Hne0). unfold folded_weight. apply qsum_map_ext.
       intros [[ss dt] w] _. unfold gm. destruct (map_path m ss); reflexivity.
   Qed.
 
@@ -317,14 +343,16 @@ Section Law.
     destruct (report_shape es) as [Hs Ha].
     destruct (below_find T [] q x Hs Hin) as [t [Ht [Hq Hf]]]. cbn [app] in Hq. subst t.
     pose proof (wn_find_tall _ q _ x Ha Hf) as Hax.
-    pose proof (proj2 (tdef_iff x) (wn_find_tall _ q _ x (proj1 (tdef_iff _) (report_defined es Hdef)) Hf)) as Hdx.
-    intros j Hj. cbn [nmap fst snd].
+    intros j Hj Hfin. cbn [nmap fst snd].
+    pose proof (column_defined j Hj Hfin) as Hed0.
+    pose proof (map_entries_edef_at m _ es0 es Hmap Hed0) as Hed.
+    pose proof (wn_find_tall _ q _ x (report_def_at _ es Hed) Hf) as Hdx.
     rewrite (ccol_fin dates j a x Hj (tall_here _ _ Hax)).
     rewrite (qsum_perm _ _ (Permutation_map (ccol dates j) (fin_children a x))), map_map.
-    rewrite (own_sum_leaves q j Hj), <- (own_at_find es q x _ Hdef Hf).
-    destruct x as [s lf w ch]. rewrite (propagate_local s lf w ch Hdx). cbn [wn_weights wn_children].
+    rewrite (own_sum_leaves q j Hj Hed0), <- (own_at_find_at _ es q x Hed Hf).
+    rewrite (proj2 (propagate_at _ x Hdx)).
     apply Qplus_inj_l. apply qsum_map_ext. intros c Hc. symmetry. apply ccol_fin; [exact Hj|].
-    pose proof (tall_children _ _ Hax) as Hall. cbn [wn_children] in Hall. rewrite Forall_forall in Hall.
+    pose proof (tall_children _ _ Hax) as Hall. rewrite Forall_forall in Hall.
     exact (tall_here _ _ (Hall c Hc)).
   Qed.
 
@@ -363,11 +391,11 @@ End Law.
 
 Theorem mapping_law_table cfg ds es0 es t0 t :
   weights_entries (pf_unmapped cfg) ds = COk es0 -> weights_entries cfg ds = COk es ->
-  defined_entries es0 -> prefix_free es0 -> Forall (fun e => entry_path e <> []) es ->
+  prefix_free es0 -> Forall (fun e => entry_path e <> []) es ->
   weights_table (pf_unmapped cfg) ds = COk t0 -> weights_table cfg ds = COk t ->
   mapping_law_b 0 (length (fst t)) (pc_mapping cfg) (srows t0) (srows t) = true.
 Proof.
-  intros H0 H Hd Hpf Hne. unfold weights_table. rewrite H0, H. cbn [cbind]. intros E0 E. inversion E0; inversion E; subst.
+  intros H0 H Hpf Hne. unfold weights_table. rewrite H0, H. cbn [cbind]. intros E0 E. inversion E0; inversion E; subst.
   cbn [render_weights fst]. change (pc_alpha (pf_unmapped cfg)) with (pc_alpha cfg).
-  exact (table_law (pc_mapping cfg) es0 es (pc_alpha cfg) (pc_alpha cfg) (weights_entries_map cfg ds es0 es H0 H) Hd Hpf Hne).
+  exact (table_law (pc_mapping cfg) es0 es (pc_alpha cfg) (pc_alpha cfg) (weights_entries_map cfg ds es0 es H0 H) Hpf Hne).
 Qed.
